@@ -16,7 +16,7 @@ ASSUMPTIONS = [
 ]
 CASES = {"quick": 300000, "thorough": 10000000}
 MIN_CASES = {"quick": 60000, "thorough": 100000}
-REQUIRED_COUNTERS = ["expr_assignments_checked", "ineq_assignments_checked", "normal_form_checked", "shared_operands_rechecked"]
+REQUIRED_COUNTERS = ["augmented_assignments_built", "expr_assignments_checked", "ineq_assignments_checked", "normal_form_checked", "shared_operands_rechecked"]
 VARS = ["a", "b", "c", "d", "e", "f", "g", "h"]
 OPS = [">=", "<=", ">", "<", "=="]
 
@@ -79,6 +79,12 @@ def gen_E(rng, vars_, d):
     r = rng.random()
     if d <= 0:
         return ["E0+", gen_X(rng, vars_, 0)]                      # Expr() + X
+    if r < 0.07:
+        # augmented assignment on a name that may be bound to a kept operand object (s = base; s += x): base must keep its value
+        kind = rng.choice(["E+=", "E+=", "E-=", "E*=k"])
+        # (a kept operand may be a literal or a term, for which only '+' is defined)
+        left = ["ref", rng.randrange(_POOL[0])] if _POOL[0] and kind == "E+=" and rng.random() < 0.7 else gen_E(rng, vars_, d - 1)
+        return [kind, left, _int(rng)] if kind == "E*=k" else [kind, left, gen_X(rng, vars_, d - 1)]
     if r < 0.3:
         return ["E+", gen_E(rng, vars_, d - 1), gen_X(rng, vars_, d - 1)]
     if r < 0.55:
@@ -162,6 +168,7 @@ def setup(ctx):
     _pb = pb
 
 
+_augmented = [0]
 _pool_objs: list = []
 _pool_trees: list = []
 
@@ -193,6 +200,19 @@ def build(t):
         return t[1]
     if k == "E0+":
         return pb.Expr() + build(t[1])
+    if k in ("E+=", "E-=", "E*=k"):
+        _augmented[0] += 1
+        acc = build(t[1])
+        other = t[2] if k == "E*=k" else build(t[2])
+        if isinstance(acc, (str, int)) and isinstance(other, (str, int)):
+            acc = pb.Expr() + acc
+        if k == "E+=":
+            acc += other
+        elif k == "E-=":
+            acc -= other
+        else:
+            acc *= other
+        return acc
     if k == "E+":
         return build(t[1]) + build(t[2])
     if k == "E-":
@@ -218,7 +238,7 @@ def ev(t, asg):
         return v if t[2] else 1 - v
     if k == "negL":
         return 1 - ev(t[1], asg)
-    if k in ("term", "L*k", "T*k", "E*k"):
+    if k in ("term", "L*k", "T*k", "E*k", "E*=k"):
         return ev(t[1], asg) * t[2]
     if k in ("k*L", "k*T", "k*E"):
         return t[1] * ev(t[2], asg)
@@ -230,9 +250,9 @@ def ev(t, asg):
         return t[1]
     if k == "E0+":
         return ev(t[1], asg)
-    if k in ("E+", "L+", "T+"):
+    if k in ("E+", "L+", "T+", "E+="):
         return ev(t[1], asg) + ev(t[2], asg)
-    if k == "E-":
+    if k in ("E-", "E-="):
         return ev(t[1], asg) - ev(t[2], asg)
     if k in ("i+L", "i+T"):
         return t[1] + ev(t[2], asg)
@@ -305,9 +325,11 @@ def check(case, ctx):
             ctx.violation("expr_build_raised", f"building a shared operand raised {type(o).__name__}: {o}")
             return
         _pool_objs.append(o)
+    _augmented[0] = 0
     try:
         _check(case, ctx, assignments)
     finally:
+        ctx.count("augmented_assignments_built", _augmented[0])
         # operands handed to the algebra must still mean what they meant (no operation may alter its arguments)
         for t, o in zip(_pool_trees, _pool_objs):
             ctx.count("shared_operands_rechecked")
